@@ -89,11 +89,60 @@ func c15Route(name string, ver int) *ast.Route {
 	}
 	for _, it := range mod.Items {
 		if r, ok := it.(*ast.Route); ok {
-			c15RouteCache[key] = r
-			return r
+			// The parser produces value-form nodes, which the optimizer passes through almost untouched; routes built
+			// through the library API (what JIT embedders and the package's own tests use) are pointer-form, and only
+			// those give the optimising tiers something to rewrite. Use the pointer-form encoding of the parsed body.
+			pr := *r
+			pr.Body = c15PtrStmts(r.Body)
+			c15RouteCache[key] = &pr
+			return &pr
 		}
 	}
 	panic("no route in " + c15Source(name, ver))
+}
+
+// c15PtrStmts / c15PtrExpr rebuild a parsed (value-form) body with pointer-form nodes; an unknown node kind is an
+// engine error (panic), never silently kept.
+func c15PtrStmts(in []ast.Statement) []ast.Statement {
+	var out []ast.Statement
+	for _, st := range in {
+		switch s := st.(type) {
+		case ast.AssignStatement:
+			out = append(out, &ast.AssignStatement{Target: s.Target, Value: c15PtrExpr(s.Value)})
+		case ast.ReassignStatement:
+			out = append(out, &ast.ReassignStatement{Target: s.Target, Value: c15PtrExpr(s.Value)})
+		case ast.ReturnStatement:
+			out = append(out, &ast.ReturnStatement{Value: c15PtrExpr(s.Value), Status: s.Status})
+		case ast.IfStatement:
+			out = append(out, &ast.IfStatement{Condition: c15PtrExpr(s.Condition), ThenBlock: c15PtrStmts(s.ThenBlock), ElseBlock: c15PtrStmts(s.ElseBlock)})
+		case ast.WhileStatement:
+			out = append(out, &ast.WhileStatement{Condition: c15PtrExpr(s.Condition), Body: c15PtrStmts(s.Body)})
+		default:
+			panic(fmt.Sprintf("c15: statement kind %T not handled by the pointer-form encoder", st))
+		}
+	}
+	return out
+}
+
+func c15PtrExpr(e ast.Expr) ast.Expr {
+	switch x := e.(type) {
+	case nil:
+		return nil
+	case ast.LiteralExpr:
+		return &ast.LiteralExpr{Value: x.Value}
+	case ast.VariableExpr:
+		return &ast.VariableExpr{Name: x.Name, Pos: x.Pos}
+	case ast.BinaryOpExpr:
+		return &ast.BinaryOpExpr{Op: x.Op, Left: c15PtrExpr(x.Left), Right: c15PtrExpr(x.Right), Pos: x.Pos}
+	case ast.ObjectExpr:
+		o := &ast.ObjectExpr{}
+		for _, f := range x.Fields {
+			o.Fields = append(o.Fields, ast.ObjectField{Key: f.Key, Value: c15PtrExpr(f.Value)})
+		}
+		return o
+	default:
+		panic(fmt.Sprintf("c15: expression kind %T not handled by the pointer-form encoder", e))
+	}
 }
 
 var c15Inputs = []int64{0, 1, 2, 5}
@@ -200,9 +249,10 @@ func c15Alphabet(thorough bool) []c15Event {
 		{Op: "CompileRoute", Name: "s"},
 		{Op: "types", Name: "s", T: 0},
 		{Op: "Redefine+InvalidateCache", Name: "s"},
+		{Op: "exec", Name: "s", N: 50},
 	}
 	if thorough {
-		ev = append(ev, c15Event{Op: "exec", Name: "s", N: 50}, c15Event{Op: "RecordDeoptimization", Name: "s"}, c15Event{Op: "GetUnit", Name: "s"})
+		ev = append(ev, c15Event{Op: "RecordDeoptimization", Name: "s"}, c15Event{Op: "GetUnit", Name: "s"})
 	}
 	return ev
 }
